@@ -54,7 +54,8 @@ def _case(draw):
                 start=draw(st.lists(st.sampled_from([0.0, 0.1, -0.2, 1.0, -3.0, 10.0, 30.0]), min_size=n, max_size=n)),
                 c=draw(st.lists(st.sampled_from([1.0, -2.0, 0.5]), min_size=n, max_size=n)),
                 tol=draw(st.sampled_from({"float32": [1e-4, 1e-5], "float64": [1e-6, 1e-9, 1e-12], "longdouble": [1e-9, 1e-12, 1e-15]}[dtype])),
-                with_jac=draw(st.booleans()), jac_layout=draw(st.sampled_from(["matrix", "tensor"])))
+                with_jac=draw(st.booleans()), jac_layout=draw(st.sampled_from(["matrix", "tensor"])),
+                flat_out=draw(st.sampled_from([False, False, True])))
 
 
 def parts(tier):
@@ -101,6 +102,8 @@ class System(object):
             d = v - xs
             T = dtype.type
             out = Mx @ d + T(self.case["a"]) * np.tanh(Nx @ d) * np.abs(d) + T(self.case["b"]) * d ** 3
+        if self.case.get("flat_out") and len(self.shape) >= 1:
+            return out.reshape(-1).astype(dtype, copy=False)       # the residual as a flat vector, whatever the shape of the unknown
         return out.reshape(self.shape).astype(dtype, copy=False)
 
     def _blocks(self, dtype):
